@@ -164,8 +164,8 @@ func c02(r *ev.Run, replay string) {
 	if err := readJSON(ev.Root+"/witnesses/C02.json", &wit); err != nil {
 		r.Inconclusive("witnesses/C02.json: " + err.Error())
 	}
-	n := r.N(300, 500)
-	shards := r.N(3, 8)
+	n := r.N(300, 800)
+	shards := r.N(3, 16)
 	var wg sync.WaitGroup
 	sem := make(chan struct{}, 12)
 	modes := map[string]string{}
